@@ -337,6 +337,11 @@ func checkC19(P *Prog, r *Result) {
 						okW = true
 					}
 				}
+				// or what is written is the default / catch value itself (when it may be written is C04's and C05's
+				// business: decision-shape, swallow-implies-catch-store)
+				if st, isSt := w.in.(*ssa.Store); isSt && !okW && P.condMentionsRole(st.Val, isRole, fn) {
+					okW = true
+				}
 				if !okW && R.kindOfFunc(fn) == "PreprocessSchema" {
 					okW = true // documented: Validate stores the preprocessed value
 				}
